@@ -108,6 +108,15 @@ class Injected(Exception):
     pass
 
 
+def norm(r):
+    """results -> address-free text for the event log"""
+    if callable(r) and hasattr(r, '__name__'):
+        return r.__name__
+    if isinstance(r, (list, tuple)):
+        return '[' + ', '.join(norm(x) for x in r) + ']'
+    return repr(r)
+
+
 # --------------------------------------------------------------------------
 # Part A
 # --------------------------------------------------------------------------
@@ -479,7 +488,7 @@ def execute_reenter(program, ctx, mode):
         if again != a1:
             ctx.violation('C11', 'stale', 'C11|reenter|stale-answer-survives|%s|%s|%s' % (entry, point, action),
                           {'case': case, 'got': repr(again), 'want': repr(a1), 'interrupted_call_returned': repr(got)})
-        ctx.log(ctx.step, flav, entry, point, action, cache_state, fired[0], repr(got) if exc is None else 'raise:' + type(exc).__name__, repr(again))
+        ctx.log(ctx.step, flav, entry, point, action, cache_state, fired[0], norm(got) if exc is None else 'raise:' + type(exc).__name__, norm(again))
         return S, B, (R0, R1, R2, P0, ob, K)
 
     def refbalance(case):
@@ -864,7 +873,7 @@ def execute_threads(program, ctx, mode):
     cfg = 'lookup-only' if lookup_only else 'with-mutator'
     # 1. exceptions seen by lookup threads
     for tid, inv, ret, key, r, exc in look_records:
-        ctx.log('lookup', tid, ENTRIES[key['e']], key['req'], key['n'], repr(r) if exc is None else 'raise:' + type(exc).__name__)
+        ctx.log('lookup', tid, ENTRIES[key['e']], key['req'], key['n'], norm(r) if exc is None else 'raise:' + type(exc).__name__)
         if exc is not None:
             ctx.violation('C11', 'thread-exception', 'C11|threads|%s|lookup-raised|%s|%s' % (cfg, type(exc).__name__, zope_frame_of(exc)),
                           {'key': key, 'exc': repr(exc)[:300], 'flavour': flav})
